@@ -339,6 +339,10 @@ def run(ctx):
     ctx.stats["twin_rejected_contexts"] = len(twin_rejected)
     ctx.stats["twin_rejected_samples"] = [{"case": list(map(str, k)), "msgs": v} for k, v in list(twin_rejected.items())[:6]]
     ctx.stats["judged_per_rule"] = by_rule
+    # multi-module projects (spec/GenMod.tla, lib/modproj.py): the same declarations split over several files
+    with ctx.timed("modproj"):
+        from lib import modproj
+        modproj.run(ctx)
     common.write_evidence(ctx, "model_checking", {
         "states": sum(r["distinct"] for r in ctx.tlc_runs),
         "transitions": sum(r["states"] for r in ctx.tlc_runs),
